@@ -52,6 +52,7 @@ TABLES = {
     'Twin': [('a', ('nested', 'Sub'), None), ('b', ('nested', 'Sub'), None), ('items', ('vec', 'Item'), None), ('n', 'int', 0)],
     'DpT': [('d1', 'Dp1', None), ('d2', 'Dp2', None), ('d3', 'Dp3', None), ('v1', ('vec', 'Dp1'), None), ('n', 'int', 0)],
     'Multi': [('xs', ('vec', 'DepMid'), None), ('a', 'DepMid', None), ('b', 'DepMid', None), ('ys', ('vec', 'DepLast'), None)],
+    'Opt': [('i', 'int', None), ('b', 'bool', None), ('u', 'ubyte', None), ('e', 'Color', None), ('l', 'long', None), ('f', 'float', None), ('d', 'double', None), ('n', 'int', 0)],
     'Sub': [('id', 'uint', 0), ('tag', 'string', None), ('pt', 'Pt', None)],
     'Root': [('b', 'bool', False), ('i8', 'byte', -3), ('u8', 'ubyte', 0), ('i16', 'short', 0), ('u16', 'ushort', 500),
              ('i32', 'int', 0), ('u32', 'uint', 0), ('i64', 'long', 0), ('u64', 'ulong', 0), ('f32', 'float', 0.0),
@@ -66,7 +67,7 @@ TABLES = {
 REQUIRED = {('Sub', 'tag'), ('Req', 'a'), ('Req', 'b'), ('Req', 'c')}
 UNIONS = {'Any': [('Leaf', 'Leaf'), ('Other', 'Other'), ('Pt', 'Pt'), ('Str', 'string')],
           'Tree': [('Node', 'Node'), ('Leaf', 'Leaf'), ('Other', 'Other')]}   # code = index + 1
-ROOTS = ['Root', 'Leaf', 'Other', 'Sub', 'Rec', 'Node', 'Req', 'Nums', 'Geo', 'DepFirst', 'DepMid', 'DepLast', 'DepOnly', 'Multi', 'Tiny', 'Twin', 'DpT', 'Dp1', 'Pt', 'Fix', 'Tri', 'Poly', 'S1', 'S2', 'S2s', 'S3']
+ROOTS = ['Root', 'Leaf', 'Other', 'Sub', 'Rec', 'Node', 'Req', 'Nums', 'Geo', 'DepFirst', 'DepMid', 'DepLast', 'DepOnly', 'Multi', 'Opt', 'Tiny', 'Twin', 'DpT', 'Dp1', 'Pt', 'Fix', 'Tri', 'Poly', 'S1', 'S2', 'S2s', 'S3']
 
 # powers of ten and of two with their neighbours: digit-count boundaries of the integer printers
 _GRID = sorted(set([10 ** k + d for k in range(1, 20) for d in (-1, 0, 1)] + [2 ** k + d for k in (31, 32, 33, 63) for d in (-1, 0, 1)] +
